@@ -1,6 +1,8 @@
 """C09 - transforming or copying an entity equals transforming its output geometry."""
 from fractions import Fraction
 
+import math
+
 import numpy as np
 
 import classy_blocks as cb
@@ -20,7 +22,7 @@ META = {
                "[-5,5]^3 (origin non-zero unless stated)", "ratio": "(0.2, 5)", "rotation": "pinned rational rotations: axis "
                "(1,2,2) non-unit, (cos,sin) in {(3/5,4/5), (-7/25,24/25)}", "mirror normal": "symbolic non-unit 3-vector for "
                "points/arrays, pinned non-unit (1,2,2)*3/2 for composites", "compositions": "<= 2 transformations"},
-    "outside": ["Shear", "spline-interpolated and analytic curves other than LineCurve", "rotations outside the pinned set",
+    "outside": ["Shear", "spline-interpolated curves (scipy splprep/splev are compiled code) and analytic curves other than LineCurve", "rotations outside the pinned set",
                 "compositions of 3 transformations"],
     "assumptions": ["mirror normal has squared length >= 0.01", "scale ratio > 0"],
     "must_reach": ["compare"],
@@ -137,6 +139,8 @@ def build_entity(sx, kind, P):
         return cb.DiscreteCurve(P["tri"])
     if kind == "linecurve":
         return cb.LineCurve(P["tri"][0], P["tri"][2])
+    if kind == "lininterp":
+        return cb.LinearInterpolatedCurve(P["tri"], equalize=False)
     if kind == "face":
         q = P["quad"]
         bump = sx.vec(0.0, -0.2, 0.1)
@@ -163,7 +167,7 @@ def build_entity(sx, kind, P):
 
 
 POINTSETS = {"point": "p", "arc": "p", "origin": "p", "angle": "p", "array": "tri", "spline": "tri", "polyline": "tri",
-             "discrete": "tri", "linecurve": "tri", "face": "quad", "loft": "quad", "loft-angle": "quad",
+             "discrete": "tri", "linecurve": "tri", "lininterp": "tri", "face": "quad", "loft": "quad", "loft-angle": "quad",
              "revolve": "quad", "extrude": "quad"}
 OPERATIONS = ("loft", "loft-angle", "revolve", "extrude")
 
@@ -186,6 +190,13 @@ def geometry(sx, kind, e, swap=False):
         c = e.curve if kind != "discrete" else e
         g.append(("pts", "curve points", c.discretize()))
         g.append(("len", "curve length", c.length))
+    elif kind == "lininterp":
+        # (break points at 0, 1/2, 1: parameters are exact dyadic rationals)
+        for t in (0, 0.25, 0.5, 0.875, 1):
+            g.append(("pt", f"point({t})", e.get_point(t)))
+        g.append(("pts", "discretize(count=5)", e.discretize(count=5)))
+        g.append(("len", "length", e.length))
+        g.append(("len", "length(0.25..0.875)", e.get_length(0.25, 0.875)))
     elif kind == "linecurve":
         g.append(("pt", "point(0)", e.get_point(0)))
         g.append(("pt", "point(0.3)", e.get_point(0.3)))
@@ -394,6 +405,163 @@ def run_helpers(sx):
     return "helpers"
 
 
+# ---- composite entities (shapes, stacks, assemblies) --------------------------------------------------
+def build_composite(sx, kind):
+    """canonical (concrete) composite entities; the symbolic part is the transformation"""
+    if kind == "Cylinder":
+        return cb.Cylinder([0.5, -1, 0.25], [0.5, -1, 2.25], [1.5, -1, 0.25])
+    if kind == "ExtrudedRing":
+        return cb.ExtrudedRing([0.5, -1, 0.25], [0.5, -1, 2.25], [1.5, -1, 0.25], 0.4)
+    if kind == "RevolvedRing":
+        face = cb.Face([[0, 1, 0.5], [1, 1, 0.5], [1, 1.5, 0.5], [0, 1.4, 0.5]])
+        return cb.RevolvedRing([0, 0, 0.5], [1, 0, 0.5], face, 4)
+    if kind == "Frustum":
+        return cb.Frustum([0.5, -1, 0.25], [0.5, -1, 2.25], [1.5, -1, 0.25], 0.5)
+    if kind == "Elbow":
+        return cb.Elbow([0, 0, 0], [0.5, 0, 0], [0, 0, 1], math.pi / 2, [2, 0, 0], [0, 1, 0], 0.5)
+    if kind == "Hemisphere":
+        return cb.Hemisphere([0.5, -1, 0.25], [1.5, -1, 0.25], [0, 0, 1])
+    if kind == "ExtrudedStack":
+        return cb.ExtrudedStack(cb.Grid([0.5, -1, 0], [2.5, 2, 0], 2, 2), [0, 0, 1.5], 2)
+    if kind == "RevolvedStack":
+        return cb.RevolvedStack(cb.Grid([1, 0, 0], [2, 1, 0], 1, 2), math.pi / 3, [0, 1, 0], [-1, 0, 0], 2)
+    if kind == "TJoint":
+        return cb.TJoint([0.5, -1, 0.25], [0.5, -1, 3.25], [1.5, -1, 0.25])
+    if kind == "LJoint":
+        return cb.LJoint([0.5, -1, 0.25], [0.5, -1, 3.25], [1.5, -1, 0.25])
+    if kind == "Assembly":
+        from classy_blocks.construct.assemblies.assembly import Assembly
+
+        c1 = cb.Cylinder([0.5, -1, 0.25], [0.5, -1, 2.25], [1.5, -1, 0.25])
+        return Assembly([c1, cb.Cylinder.chain(c1, 1.5)])
+    if kind == "CuspCylinder":
+        from classy_blocks.construct.assemblies.joints import CuspCylinder
+
+        return CuspCylinder([0.5, -1, 0.25], [0.5, -1, 3.25], [1.5, -1, 0.25], math.pi / 4, math.pi / 6)
+    if kind == "ExtrudedShape":
+        return cb.ExtrudedShape(cb.OneCoreDisk([0.5, -1, 0.25], [1.5, -1, 0.25], [0, 0, 1]), [0, 0, 1.5])
+    raise KeyError(kind)
+
+
+def composite_geometry(sx, e):
+    mesh = cb.Mesh()
+    mesh.add(e)
+    mesh.assemble()
+    g = [("pts", "vertices", np.array([v.position for v in mesh.vertices]))]
+    for i, ed in enumerate(mesh.edge_list.edges):
+        nm = f"edge#{i} {ed.kind} {ed.vertex_1.index}-{ed.vertex_2.index}"
+        if ed.kind in ("arc", "origin", "angle"):
+            g.append(("pt", nm + " third point", ed.third_point.position))
+            g.append(("len", nm + " length", ed.length))
+        elif ed.kind in ("spline", "polyLine"):
+            g.append(("pts", nm + " points", ed.point_array))
+    g.append(("str", "blocks", [tuple(v.index for v in b.vertices) for b in mesh.blocks]))
+    return g, mesh
+
+
+def run_composite(sx, kind, tkind, via_list=False, origin_mode="sym"):
+    e1, e2 = build_composite(sx, kind), build_composite(sx, kind)
+    o_arg = "given"
+    if origin_mode == "sym":
+        o = sx.vec(sx.real("ox", -5, 5), sx.real("oy", -5, 5), sx.real("oz", -5, 5))
+    elif origin_mode == "default":
+        # origin=None: "the entity is rotated/scaled with respect to its center" - which has to be a point of space
+        # inside the entity's bounding box for that sentence to mean anything
+        c = np.asarray(e1.center)
+        pts = np.array([p for op in e1.operations for p in op.point_array], dtype=float)
+        ok = c.shape == (3,) and bool(np.all(np.asarray(c, dtype=float) >= pts.min(axis=0) - 1e-9)
+                                      and np.all(np.asarray(c, dtype=float) <= pts.max(axis=0) + 1e-9))
+        sx.reach("compare")
+        sx.prove(ok, f"{kind}.center (the default origin of rotate/scale) is a point within the entity's bounding box",
+                 f"C09:{kind}:center", info={"center": str(c)})
+        if not ok:
+            return f"{kind}.{tkind}"
+        o = sx.vec(*[float(x) for x in c])
+        o_arg = None
+    else:
+        o = sx.vec(1.5, -2.0, 0.5)
+    if tkind == "translate":
+        d = sx.vec(sx.real("dx", -5, 5), sx.real("dy", -5, 5), sx.real("dz", -5, 5))
+        A, spec = make_translate(sx, d), ("translate", {"d": d})
+    elif tkind == "rotate":
+        theta, A = make_rotation(sx, "a", o)
+        spec = ("rotate", {"theta": theta, "axis": list(AXIS), "origin": o if o_arg else None})
+    elif tkind == "scale":
+        ratio = sx.real("ratio", 0.2, 5)
+        A, spec = make_scale(sx, ratio, o), ("scale", {"ratio": ratio, "origin": o if o_arg else None})
+    else:
+        raise KeyError(tkind)
+    g1_, m1 = composite_geometry(sx, e1)
+    apply_transform(sx, kind, e2, spec, via_list)
+    g2_, m2 = composite_geometry(sx, e2)
+    sx.reach("compare")
+    tag = f"{kind}.{'transform([' + tkind + '])' if via_list else tkind}"
+    names1 = [x[1] for x in g1_] + [len(m1.vertices)]
+    names2 = [x[1] for x in g2_] + [len(m2.vertices)]
+    sx.prove(names1 == names2, f"{tag}: the transformed entity assembles to the same vertices/edges structure",
+             f"C09:{kind}:{tkind}:structure", info={"before": len(names1), "after": len(names2),
+                                                    "vertices": [len(m1.vertices), len(m2.vertices)]})
+    if names1 != names2:
+        return f"{kind}.{tkind}"
+    for (t, name, v1), (_, _, v2) in zip(g1_, g2_):
+        key = f"C09:{kind}:{tkind}:{t}"
+        if t == "pt":
+            sx.prove_vec_close(v2, A.point(np.asarray(v1)), f"{tag}: {name} == map(point)", tol=1e-8, key=key)
+        elif t == "pts":
+            sx.prove_vec_close(np.asarray(v2), np.array([A.point(np.asarray(p)) for p in v1]), f"{tag}: {name} == map(points)",
+                               tol=1e-8, key=key)
+        elif t == "len":
+            sx.prove_close(v2, v1 * A.ratio, f"{tag}: {name} == ratio * length", tol=1e-7, key=key)
+        elif t == "str":
+            sx.prove(v1 == v2, f"{tag}: same block connectivity", key)
+    return f"{kind}.{tkind}"
+
+
+def run_composite_copy(sx, kind):
+    """copy(): equivalent and independent; a copied sphere must still reference a geometry that is defined"""
+    e1 = build_composite(sx, kind)
+    e2 = e1.copy()
+    d = sx.vec(sx.real("dx", -5, 5), sx.real("dy", -5, 5), sx.real("dz", -5, 5))
+    g0, _ = composite_geometry(sx, e1)
+    e2.translate(d)
+    g1_, _ = composite_geometry(sx, e1)
+    sx.reach("compare")
+    _unchanged(sx, [x for x in g0 if x[0] != "str"], [x for x in g1_ if x[0] != "str"],
+               f"{kind}.copy(): translating the copy leaves the original unchanged", f"C09:{kind}:copy:independent")
+    g2_, mesh2 = composite_geometry(sx, e2)
+    A = make_translate(sx, d)
+    ok = [x[1] for x in g0] == [x[1] for x in g2_] and len(g0[0][2]) == len(g2_[0][2])
+    sx.prove(ok, f"{kind}.copy().translate: same structure", f"C09:{kind}:copy:structure")
+    if ok:
+        for (t, name, v1), (_, _, v2) in zip(g0, g2_):
+            if t in ("pt", "pts"):
+                want = A.point(np.asarray(v1)) if t == "pt" else np.array([A.point(np.asarray(p)) for p in v1])
+                sx.prove_vec_close(np.asarray(v2), want, f"{kind}.copy().translate: {name}", tol=1e-8, key=f"C09:{kind}:copy:{t}")
+    # geometry referenced by projections of the copy is defined by the copy
+    used = set()
+    for op in e2.operations:
+        for lab in [op.bottom_face.projected_to, op.top_face.projected_to, *op.side_projects]:
+            if lab:
+                used.add(lab)
+    defined = set((e2.geometry or {}).keys())
+    sx.prove(used <= defined, f"{kind}.copy(): every geometry the copy projects to is defined by the copy",
+             f"C09:{kind}:copy:geometry", info={"used": sorted(used), "defined": sorted(defined)})
+    return f"{kind}.copy"
+
+
+def install():
+    from . import c16
+
+    c16.install()
+    META.setdefault("stubs", []).extend(s for s in c16.META.get("stubs", []) if s not in META.get("stubs", []))
+
+
+def validate(seed):
+    from . import c16
+
+    return c16.validate(seed)
+
+
 def jobs(tier, seed):
     js = []
 
@@ -402,13 +570,15 @@ def jobs(tier, seed):
         js.append({"name": name, "fn": "run", "params": dict(kind=kind, tkind=tkind, **kw),
                    "budget_s": 200 if tier == "quick" else 1500, "timeout_ms": 15000 if tier == "quick" else 60000})
 
-    simple = ["point", "array", "arc", "origin", "angle", "spline", "polyline", "discrete", "linecurve"]
+    simple = ["point", "array", "arc", "origin", "angle", "spline", "polyline", "discrete", "linecurve", "lininterp"]
     for kind in simple:
         for tk in ("translate", "rotate", "scale", "mirror"):
             add(kind, tk, nsym=9 if tier == "thorough" else 3,
                 normal_mode="sym" if kind in ("point", "arc", "origin", "angle") or tier == "thorough" else "pinned")
-    for kind in ("point", "array", "spline", "angle"):
-        for tk in ("rotate", "scale", "mirror"):
+    for kind in simple:
+        for tk in ("translate", "rotate", "scale", "mirror"):
+            if tk == "translate" and kind not in ("discrete", "lininterp", "linecurve"):
+                continue
             add(kind, tk, via_list=True, normal_mode="sym" if kind in ("point", "angle") else "pinned")
     for kind in ("face", "loft", "loft-angle", "extrude", "revolve"):
         for tk in ("translate", "rotate", "scale", "mirror"):
@@ -420,8 +590,27 @@ def jobs(tier, seed):
                 add(kind, tk, nsym=2, via_list=True, origin_mode="pinned", normal_mode="pinned")
         for kind in simple:
             add(kind, "rotate", pin="b", nsym=9)
-    for kind in ("point", "array", "spline", "discrete", "linecurve", "face", "loft", "revolve"):
+    for kind in ("point", "array", "spline", "discrete", "linecurve", "lininterp", "face", "loft", "revolve"):
         js.append({"name": f"{kind}.copy", "fn": "run_copy", "params": {"kind": kind, "nsym": 3},
                    "budget_s": 200 if tier == "quick" else 1500})
     js.append({"name": "helpers", "fn": "run_helpers", "budget_s": 100})
+    comps = ["Cylinder", "ExtrudedRing", "RevolvedRing", "Hemisphere", "ExtrudedStack", "LJoint"] if tier == "quick" else \
+        ["Cylinder", "ExtrudedRing", "RevolvedRing", "Frustum", "Elbow", "Hemisphere", "ExtrudedStack", "RevolvedStack", "LJoint",
+         "ExtrudedShape", "Assembly", "CuspCylinder", "TJoint"]
+    for kind in comps:
+        for tk in ("translate", "rotate", "scale"):
+            js.append({"name": f"{kind}.{tk}|composite", "fn": "run_composite",
+                       "params": {"kind": kind, "tkind": tk, "origin_mode": "pinned" if tier == "quick" else "sym"},
+                       "budget_s": 280 if tier == "quick" else 1500})
+        if tier == "thorough":
+            js.append({"name": f"{kind}.rotate|composite|list", "fn": "run_composite",
+                       "params": {"kind": kind, "tkind": "rotate", "via_list": True}, "budget_s": 1500})
+    for kind in (comps if tier == "thorough" else ["Cylinder", "LJoint", "ExtrudedStack", "Hemisphere", "Assembly", "CuspCylinder"]):
+        for tk in ("rotate", "scale"):
+            js.append({"name": f"{kind}.{tk}|composite|default-origin", "fn": "run_composite",
+                       "params": {"kind": kind, "tkind": tk, "origin_mode": "default"},
+                       "budget_s": 280 if tier == "quick" else 1500})
+    for kind in ("Cylinder", "Hemisphere", "ExtrudedStack"):
+        js.append({"name": f"{kind}.copy|composite", "fn": "run_composite_copy", "params": {"kind": kind},
+                   "budget_s": 280 if tier == "quick" else 1500})
     return js
